@@ -67,7 +67,7 @@ def histories(hist_len, seed, workers=8, max_ref=14):
     consts = dict(MaxRef=max_ref, NumDoms=2, NumSlots=1, MaxUid=40, BUids="{1, 2, 3}", MaxRefProps=4,
                   MaxCloneRoots=2, HistLen=hist_len)
     write_cfg(cfg, "HSpec", consts, invariants="PrintHist")
-    r = tlc("MCWeakDomHist", cfg, workers=workers, timeout=1800, xmx="8g")
+    r = tlc("MCWeakDomHist", cfg, workers=workers, timeout=1800 if hist_len <= 2 else 9000, xmx="8g")
     v = tlc_violation(r)
     if v:
         raise ToolError("history enumeration reported: " + v)
